@@ -16,6 +16,7 @@ from gen import catalog as CAT
 from gen import cfmt as GC
 from gen import pyfmt as GP
 from gen import pybrace as GB
+from gen import sweep as SW
 
 LINE_RE = re.compile(r'\A[EWIP]: [^\n]*\Z')
 def _bad_class():
@@ -371,6 +372,16 @@ def main():
             descr[len(cases) - 1] = 'corpus:' + name
     cases.append((len(cases), b'', '.po', {'special': 'rply-cache-race'}))
     descr[len(cases) - 1] = 'simulated race of two -j workers on rply\'s cache directory (the directory appears between exists() and makedirs())'
+    # every row of every data table the tool trusts, every member of the character classes its code distinguishes (gen/sweep.py)
+    try:
+        sweep_cases, sweep_counts = SW.all_cases(rng, thorough=chk.thorough)
+    except Exception as exc:        # a data table the loaded tool can no longer read is itself a finding of the e2e runs below
+        sweep_cases, sweep_counts = [], {'error': repr(exc)[:300]}
+        chk.broken.append({'kind': 'falsifier', 'problem': 'table sweep could not be generated from the loaded tool: %r' % (exc,)})
+    for data, ext, opts, what in sweep_cases:
+        cases.append((len(cases), data, ext, opts))
+        descr[len(cases) - 1] = what
+    n_fixed = len(cases)
     bb = CAT.corpus(common.REPO)
     for name, data in bb:
         if rng.random() < (1.0 if chk.thorough else 0.35):
@@ -378,7 +389,7 @@ def main():
             cases.append((len(cases), CAT.mutate_bytes(rng, data), ext, make_opts(rng)))
             descr[len(cases) - 1] = 'blackbox-mutant:' + name
     kinds = collections.Counter()
-    while len(cases) < n_files:
+    while len(cases) < n_files + n_fixed:
         data, ext, kind = HG.gen_file(rng)
         kinds[kind] += 1
         cases.append((len(cases), data, ext, make_opts(rng)))
@@ -400,7 +411,7 @@ def main():
     run_cases(cases, workers, on_result)
     chk.evaluations += len(cases)
     chk.note_cases(tagcount.keys())
-    chk.coverage['in_process'] = {'files': len(cases), 'by_generator': dict(kinds), 'outcomes': dict(stats), 'distinct_tags_emitted': len(tagcount),
+    chk.coverage['in_process'] = {'files': len(cases), 'by_generator': dict(kinds), 'sweeps': sweep_counts, 'outcomes': dict(stats), 'distinct_tags_emitted': len(tagcount),
                                   'tags_emitted': dict(tagcount.most_common()), 'slowest_cpu_s': sorted(slow, reverse=True)[:5],
                                   'size_bytes': {'max': max(len(c[1]) for c in cases), 'mean': sum(len(c[1]) for c in cases) // len(cases)}}
     for key, rs in crashes.items():
